@@ -68,9 +68,11 @@ def rule_decode_set(ctx, rule, m, params, sets):
                 continue
             ctx.ob(rule, "decode-set/%s/0x%02X" % (comp, b), b not in D,
                    "%s decodes %%%02X: %s must stay escaped in %s" % (name, b, reason, comp), site,
-                   witness="a%%%02Xb" % b,
+                   witness="a%%%sb" % (m.spelling.get(b) or b"%02X" % b).decode() if hasattr(m, "spelling") else "a%%%02Xb" % b,
                    sample="%s keeps %%%02X escaped (%s)" % (name, b, reason) if b in (0x2F, 0x25, 0x7F, 0x00) else None)
     ctx.require_instances(rule, n, 1024, "cells")
+    for b, d in sorted(getattr(m, "others", {}).items()):
+        ctx.ob(rule, "re-emission/0x%02X" % b, False, "_unquote_impl neither keeps '%%%02X<rest>' whole nor emits the byte followed by the rest of the piece (%s): bytes are lost or invented" % (b, d), site, witness="a%%%02X/t" % b)
 
 
 def rule_must_decode(ctx, rule, m, params, sets):
@@ -191,33 +193,22 @@ def rule_leaf_shapes(ctx, rule, m):
 
 def rule_quote_regexes(ctx, rule):
     """safely_quote leaves existing escapes alone and is a no-op on its own output."""
-    ctx.rule(rule, "escape-preserving quoting: L(QUOTED_SPLIT_RE group) = L(QUOTED_RE) = %HH; urllib's emitted escapes %[0-9A-F]{2} are inside it; matched pieces are yielded verbatim, others go through urllib.parse.quote")
+    ctx.rule(rule, "escape-preserving quoting: the splitter's group language is exactly %HH; a piece is yielded verbatim only under a regex test whose language is inside %HH (so everything that is not a valid escape goes through urllib.parse.quote); urllib's emitted escapes %[0-9A-F]{2} are recognised, so safely_quote is a no-op on its own output")
     repo = ctx.repo
     q = repo.mod("quote")
     split_re = repo.const(q, "QUOTED_SPLIT_RE")
-    full_re = repo.const(q, "QUOTED_RE")
-    ctx.rx("ural.quote.QUOTED_SPLIT_RE", "ural.quote.QUOTED_RE")
-    if not isinstance(split_re, Regex) or not isinstance(full_re, Regex):
-        raise AnalysisError("quote.QUOTED_SPLIT_RE / QUOTED_RE are not compiled regexes")
-    A = Algebra()
-    try:
-        # language of one match of the splitter (fullmatch of the whole pattern)
-        s = A.regex(split_re.pattern, split_re.flags, "fullmatch", "QUOTED_SPLIT_RE")
-        f = A.regex(full_re.pattern, full_re.flags, "match", "QUOTED_RE")
-        ref = A.regex(r"%[0-9A-Fa-f]{2}", 0, "fullmatch", "ref")
-        emitted = A.regex(r"%[0-9A-F]{2}", 0, "fullmatch", "emitted")
-        nonl = A.regex(r"[^\n]*", 0, "fullmatch")
-    except Unsupported as e:
-        ctx.undecided(rule, "quote regexes: %s" % e)
-        return
+    ctx.rx("ural.quote.QUOTED_SPLIT_RE")
+    if not isinstance(split_re, Regex):
+        raise AnalysisError("quote.QUOTED_SPLIT_RE is not a compiled regex")
     site = q.site(repo.const_node(q, "QUOTED_SPLIT_RE"))
-    w = A.equiv(s, ref)
-    ctx.ob(rule, "QUOTED_SPLIT_RE=escapes", w is None, "QUOTED_SPLIT_RE does not match exactly the %%HH escapes (%s: %r)" % (w or ("", "")), site, witness=w and w[1])
-    w = A.equiv(A.inter(f, nonl), ref)
-    ctx.ob(rule, "QUOTED_RE=escapes", w is None, "QUOTED_RE does not accept exactly the %%HH escapes (%s: %r)" % (w or ("", "")), q.site(repo.const_node(q, "QUOTED_RE")), witness=w and w[1])
-    w = A.subset(emitted, f)
-    ctx.ob(rule, "emitted-escapes-recognised", w is None, "an escape emitted by urllib.parse.quote (%r) is not recognised as already quoted: safely_quote would double-escape its own output" % w, site, witness=w)
-    # capture group present (re.split keeps the separators only when captured)
+    try:
+        A = Algebra()
+        s = A.regex(split_re.pattern, split_re.flags, "fullmatch", "QUOTED_SPLIT_RE")
+        ref = A.regex(r"%[0-9A-Fa-f]{2}", 0, "fullmatch", "ref")
+        w = A.equiv(s, ref)
+        ctx.ob(rule, "QUOTED_SPLIT_RE=escapes", w is None, "QUOTED_SPLIT_RE does not match exactly the %%HH escapes (%s: %r)" % (w or ("", "")), site, witness=w and w[1])
+    except Unsupported as e:
+        ctx.undecided(rule, "QUOTED_SPLIT_RE: %s" % e)
     import re._parser as sp
     tree = sp.parse(split_re.pattern, split_re.flags)
     ctx.ob(rule, "splitter-captures", tree.state.groups == 2 and len(tree) == 1,
@@ -232,17 +223,48 @@ def rule_quote_regexes(ctx, rule):
     quoted = 0
     for r in rets:
         t = r.term
-        cond_has_match = any(
-            pol and any(x[0] == "method" and x[1] in ("match", "fullmatch") and x[2] == ("global", "ural.quote.QUOTED_RE") for x in P.subterms(c))
-            for c, pol in r.conds
-        )
-        if t[0] == "loop" or t[0] == "var":
-            if cond_has_match:
-                verbatim += 1
-            else:
-                ctx.ob(rule, "verbatim-only-when-escape", False, "safely_quote_iter yields a piece verbatim without QUOTED_RE.match succeeding", q.site(r.node))
+        if t[0] in ("loop", "var"):
+            verbatim += 1
+            # the regex test guarding the verbatim yield
+            tests = []
+            for c, pol in r.conds:
+                if not pol:
+                    continue
+                for x in P.subterms(c):
+                    g = None
+                    if x[0] == "method" and x[1] in ("match", "fullmatch") and x[2][0] == "global" and x[3] and x[3][0] == t:
+                        g, mode = x[2][1], x[1]
+                    elif x[0] == "call" and x[1].endswith((".match", ".fullmatch")) and x[2] and x[2][0] == t:
+                        g, mode = x[1].rpartition(".")[0], x[1].rpartition(".")[2]
+                    elif x[0] == "call" and x[1] in ("re.match", "re.fullmatch") and len(x[2]) >= 2 and x[2][0][0] == "global" and x[2][1] == t:
+                        g, mode = x[2][0][1], x[1][3:]
+                    if g:
+                        tests.append((g, mode))
+            condtxt = " and ".join(("" if pol else "not ") + P.show(c, maxdepth=3) for c, pol in r.conds if c[0] != "in-loop")
+            if not tests:
+                ctx.ob(rule, "verbatim-only-when-escape", False,
+                       "safely_quote_iter yields a piece verbatim under `%s`, which does not check that the piece is a valid %%HH escape: '%%zz' or '%% a' are returned unquoted" % condtxt,
+                       q.site(r.node), witness="%zz")
+            for g, mode in tests:
+                mod, _, name = g.rpartition(".")
+                try:
+                    rx = repo.const(repo.mod(mod), name)
+                    ctx.rx(g)
+                    A = Algebra()
+                    a = A.regex(rx.pattern, rx.flags, mode, name)
+                    esc = A.regex(r"%[0-9A-Fa-f]{2}", 0, "fullmatch")
+                    emitted = A.regex(r"%[0-9A-F]{2}", 0, "fullmatch")
+                    nonl = A.regex(r"[^\n]*", 0, "fullmatch")
+                    w = A.subset(A.inter(a, nonl), esc)
+                    ctx.ob(rule, "verbatim-test-inside-escapes/%s" % name, w is None, "%s lets %r through verbatim, which is not a valid %%HH escape" % (name, w), q.site(r.node), witness=w)
+                    w = A.subset(emitted, a)
+                    ctx.ob(rule, "emitted-escapes-recognised/%s" % name, w is None, "an escape emitted by urllib.parse.quote (%r) is not recognised by %s: safely_quote double-escapes its own output" % (w, name), q.site(r.node), witness=w)
+                except (Unsupported, Unknown, AnalysisError) as e:
+                    ctx.undecided(rule, "verbatim test %s: %s" % (g, e))
         elif t[0] == "call" and t[1] == "urllib.parse.quote":
             quoted += 1
+            kw = dict(t[3])
+            ctx.ob(rule, "quote-call-default-safe", not kw and len(t[2]) == 1, "safely_quote_iter calls quote with extra arguments (%s)" % P.show(t, maxdepth=3), q.site(r.node))
         else:
             ctx.ob(rule, "yield-shape/%s" % P.show(t, maxdepth=3), False, "safely_quote_iter yields %s: neither the piece nor urllib.parse.quote(piece)" % P.show(t, maxdepth=4), q.site(r.node))
     ctx.ob(rule, "verbatim-branch", verbatim >= 1, "safely_quote_iter has no branch keeping existing escapes verbatim", q.site(ref_fn.node))
